@@ -187,6 +187,38 @@ func c07Tight(args []string) error {
 			emit(hier3("pow2-sphere", fmtf(float64(cells)), sp, cells, 0))
 		}
 	}
+	// --- the same ball at very different absolute sizes (an absolute tolerance in the emptiness test shows at the
+	// small end, a loss of precision at the large end)
+	{
+		u3, _ := sdf.Sphere3D(1)
+		u2, _ := sdf.Circle2D(1)
+		n3 := len(render.ToTriangles(u3, render.NewMarchingCubesOctree(30)))
+		n2 := len(collectLines(u2, render.NewMarchingSquaresQuadtree(60)))
+		for _, R := range []float64{5e-8, 1e-6, 1e-3, 1e3, 1e6} {
+			b3, _ := sdf.Sphere3D(R)
+			c2, _ := sdf.Circle2D(R)
+			if R >= 1e-3 {
+				emit(hier3("scaled-ball", fmtf(R), b3, 30, 0))
+				emit(hier2("scaled-disc", fmtf(R), c2, 60, 0))
+				continue
+			}
+			// for very small models the exhaustive reference (f/1024) itself runs into the renderers' absolute
+			// 1e-12 vertex snapping; the reference is the unit-size render instead: the lattice scales with the
+			// model, so the hierarchical render must produce the same number of items at every size
+			a := len(render.ToTriangles(b3, render.NewMarchingCubesOctree(30)))
+			d := a - n3
+			if d < 0 {
+				d = -d
+			}
+			emit(hierObs{Ev: "hier", Name: "scaled-ball-vs-unit-size", Dim: 3, Cells: 30, N: a, NFlat: n3, Diff: d, Param: fmtf(R)})
+			b := len(collectLines(c2, render.NewMarchingSquaresQuadtree(60)))
+			d = b - n2
+			if d < 0 {
+				d = -d
+			}
+			emit(hierObs{Ev: "hier", Name: "scaled-disc-vs-unit-size", Dim: 2, Cells: 60, N: b, NFlat: n2, Diff: d, Param: fmtf(R)})
+		}
+	}
 	// --- a quadtree of 18 levels (lattice coordinates beyond 2^16): no exhaustive reference is affordable there, but
 	// nothing may be lost: the segments of a thin straight box must add up to its perimeter up to the corner cuts
 	// (diff = cells of length missing or in excess beyond 8)
